@@ -84,15 +84,28 @@ pub fn gen_scenario(r: &mut Rng) -> Option<Scenario> {
     let hp_multi = hp && r.chance(1, 3);
     let mut q_acs2 = z.clone();
     let mut q_cal2 = z.clone();
+    // documented exclusion: a heat pump whose SCOP is too low is tagged on its DHW ambient-heat consumption, which then does
+    // not count as renewable supply (kept apart from the biomass-by-difference mixes, whose closed form the tag would
+    // change in a way nothing documents)
+    let low_scop = hp && !bio && r.chance(1, 4);
+    const TAG: &str = "BdC de bajo rendimiento CTEEPBD_EXCLUYE_SCOP_ACS";
     if hp {
         e2 = vals(r, n, 30.0, 1);
         a2 = vals(r, n, 80.0, 1);
         lines.push(used(2, "ACS", "ELECTRICIDAD", &e2));
-        lines.push(used(2, "ACS", "EAMBIENTE", &a2));
+        lines.push(Line::Used { id: 2, srv: "ACS".into(), cr: "EAMBIENTE".into(), v: a2.clone(), comment: if low_scop { TAG.into() } else { String::new() } });
         mixes.push("heat_pump".into());
+        if low_scop {
+            mixes.push("heat_pump_low_scop_tag".into());
+        }
+        let mut amb_decl = a2.clone();
+        let hp_decl = r.chance(1, 3);
         if hp_multi {
             let ec = vals(r, n, 30.0, 1);
             let ac = vals(r, n, 60.0, 1);
+            for i in 0..n {
+                amb_decl[i] += ac[i];
+            }
             lines.push(used(2, "CAL", "ELECTRICIDAD", &ec));
             lines.push(used(2, "CAL", "EAMBIENTE", &ac));
             q_acs2 = (0..n).map(|i| e2[i] + a2[i]).collect();
@@ -100,6 +113,13 @@ pub fn gen_scenario(r: &mut Rng) -> Option<Scenario> {
             lines.push(Line::Out { id: 2, srv: "ACS".into(), v: q_acs2.clone(), comment: String::new() });
             lines.push(Line::Out { id: 2, srv: "CAL".into(), v: q_cal2.clone(), comment: String::new() });
             mixes.push("heat_pump_also_heating".into());
+        }
+        if hp_decl {
+            // the ambient heat is declared as production of the system; a tool that copies the system's remark to every
+            // line puts the tag there too, where it means nothing
+            let tagged = low_scop || r.chance(1, 2);
+            lines.push(Line::Prod { id: 2, src: "EAMBIENTE".into(), v: amb_decl, comment: if tagged { TAG.into() } else { String::new() } });
+            mixes.push(if tagged { "declared_ambient_production_carrying_the_tag".into() } else { "declared_ambient_production".into() });
         }
     }
     if st {
@@ -294,7 +314,8 @@ pub fn gen_scenario(r: &mut Rng) -> Option<Scenario> {
     }
     let nonaux = if el_acs > 0.0 { 1.0 - w_acs_an / el_acs } else { 1.0 };
     let nearby_tot = sum(&a2) + sum(&s3) + sum(&d4) + sum(&d4b);
-    let mut ren = sum(&a2) + sum(&s3) + sum(&d4) * fr_red(&red1) + sum(&d4b) * fr_red(&red2) + pv_acs * nonaux;
+    let a2_ren = if low_scop { 0.0 } else { sum(&a2) };
+    let mut ren = a2_ren + sum(&s3) + sum(&d4) * fr_red(&red1) + sum(&d4b) * fr_red(&red2) + pv_acs * nonaux;
     // electricity counts as a DHW carrier only beyond the auxiliaries
     let el_non_aux = sum(&e1) + sum(&e2);
     let only_nearby = !(el_non_aux > 0.0) && !(st && sum(&g3) > 0.0);
@@ -320,7 +341,16 @@ pub fn gen_scenario(r: &mut Rng) -> Option<Scenario> {
         return None;
     }
     let mut spec = Spec { n, meta: vec![], lines };
-    spec.lines.push(Line::Need { srv: "ACS".into(), v: dem.clone() });
+    let mut mixes = mixes;
+    if r.chance(1, 6) {
+        // the demand declared with more values than the components (monthly needs next to annual or seasonal
+        // components): accepted by the parser, only its total matters - each value written as two halves
+        let long: Vec<f32> = dem.iter().map(|x| x / 2.0).chain(dem.iter().map(|x| x / 2.0)).collect();
+        spec.lines.push(Line::Need { srv: "ACS".into(), v: long });
+        mixes.push("demand_series_longer_than_the_components".into());
+    } else {
+        spec.lines.push(Line::Need { srv: "ACS".into(), v: dem.clone() });
+    }
     if r.chance(1, 2) {
         r.shuffle(&mut spec.lines);
     }
